@@ -747,7 +747,7 @@ def live_case(I, L, inp, kind='live'):
         want_src = safe[:allowed * eff['maximum']] if len(safe) > allowed * eff['maximum'] else safe
         if len(safe) > allowed * eff['maximum']: tags.append('live:truncated')
         if shape == 'nested' and len(inp['text']) > cfg['nestedmax']: tags.append('live:nested-truncated')
-        want = I.visible(I.munge(want_src)) if n > 1 else I.visible(want_src)
+        want = I.visible(I.munge(want_src)) if (n > 1 or spy) else I.visible(want_src)
         if not want_src.strip('\x01') and n == 1:
             want = T['empty']
         got = ''.join(I.visible(t) for t in texts)
